@@ -36,6 +36,7 @@ PROPS = {
     "C04": ("storewalk", 16, 600, 3600),
     "C08": ("storewalk", 16, 600, 3600),
     "C13": ("storewalk", 16, 600, 3600),
+    "C05": ("crashwalk", 16, 600, 3600),
 }
 
 LEVEL = "model_checking"
@@ -191,7 +192,7 @@ def finish(prop, tier, seed, m, errors, t0, level=LEVEL, assumptions=None, repla
             matched[kind] = cnt
         else:
             new_viol[kind] = cnt
-    mutant = bool(os.environ.get("VERIF_MUTANT"))
+    mutant = bool(os.environ.get("VERIF_MUTANT") or os.environ.get("VERIF_SCRATCH_EVIDENCE"))
     rdir = os.path.join(BUILD, "mutant_replays", prop) if mutant else os.path.join(VERIF, "replays", prop)
     lines = []
     if new_viol:
